@@ -124,6 +124,13 @@ def _run_one(reg: Registry, I: Interp, c: Contract, fref: FuncRef, rep: Function
     o.in_contract_expr = True
     fr.old_env = o
     fr.locals.update(ghost_env_filter(ghost_env, names))
+    ylog = None
+    if "yield_ensures" in c.extra:
+        # generator under contract: ghost log of the yields (count is symbolic, so loops can
+        # carry invariants about it); every yield site proves the per-item clauses
+        ylog = YieldLog(reg, c, fref, gfr)
+        fr.yields = ylog
+        fr.locals["__yields__"] = ylog.obj
     try:
         result = I.exec_function(fref, [], {}, frame=fr)
         outcome = None
@@ -135,6 +142,8 @@ def _run_one(reg: Registry, I: Interp, c: Contract, fref: FuncRef, rep: Function
     for nm in names:
         post_env[nm] = env[nm]          # parameters keep their entry binding (object identity)
     post_env["result"] = result
+    if ylog is not None:
+        post_env["__yields__"] = ylog.obj
     pfr = reg.contract_frame(I, fref.module, c.short, post_env, old_env)
     pfr.locals["__frame__"] = fr          # ghost definitions may refer to the code's locals
     if c.post_setup:
@@ -217,6 +226,32 @@ def _run_derived(reg: Registry, I: Interp, c: Contract, fref: FuncRef):
         raise PathEnd()
     for k, src in enumerate(c.derived):
         reg.prove_clause(I, f"derived#{k}", reg.eval_clause(I, src, pfr), "derived", pfr)
+
+
+class YieldLog:
+    """Ghost log of a generator's yields: `obj.count` (symbolic); each yield proves the contract's
+    `yield_ensures` clauses with `item` bound to the yielded value and the generator's locals in
+    scope."""
+
+    def __init__(self, reg, c, fref, ghost_frame):
+        self.reg, self.c, self.fref, self.gfr = reg, c, fref, ghost_frame
+        self.obj = SymObj("YieldLog", None)
+        self.obj.fields["count"] = 0
+        self.sites = 0
+
+    def append_sym(self, I, v, fr):
+        ctx = I.ctx
+        cfr = Frame(self.fref.module, self.c.short + "/yield", closure=fr)
+        cfr.in_contract_expr = True
+        cfr.old_env = fr.old_env
+        cfr.locals["item"] = v
+        for k, src in enumerate(self.c.extra["yield_ensures"]):
+            self.reg.prove_clause(I, f"yield#{k}", self.reg.eval_clause(I, src, cfr), "yield", cfr)
+        self.obj.fields["count"] = ops.add(self.obj.fields["count"], 1)
+        ctx.log_write(self.obj.oid, "count")
+
+    def __len__(self):
+        raise Unsupported("len of a symbolic yield log")
 
 
 def ghost_env_filter(ghost_env, names):
